@@ -926,8 +926,9 @@ def analyse_aperture(case, obs):
   blocked = []
   sset = set()
   departed = set()      # channels of members that left: never used again (a re-join gets a fresh channel)
+  latest = {}           # ep -> most recently created channel (the one in the heap, if any)
 
-  def apply_notif(kind, ep):
+  def apply_notif(kind, ep, expected_close):
     if kind == 'join':
       sset.add(ep)
     else:
@@ -935,12 +936,18 @@ def analyse_aperture(case, obs):
       for n_ in nodes.values():
         if n_['ep'] == ep:
           departed.add(n_['nid'])
+          # C04: every channel of the departing member that is still open is closed now if it is idle or marked
+          # down, otherwise by its last completion (channels the aperture had contracted out while loaded included)
+          if not n_['closed'] and not n_['close_due'] and (n_['out'] == 0 or n_['marked']):
+            expected_close.append(n_['nid'])
+            n_['close_due'] = True
 
   for i, (lb, st) in enumerate(zip(labels, steps)):
     res, ev = st['res'], st['events']
     if res.get('t') == 'exc' or res.get('exc'):
       flag('impl-exception', 'the balancer raised %s' % (res.get('exc'),), i, ('C03', 'C05'))
     k = lb[0]
+    expected_close = []
     # the notification is applied before the creations of this step are registered: a channel created while
     # the same endpoint leaves and re-joins belongs to the new membership
     if k in ('join', 'leave'):
@@ -951,21 +958,24 @@ def analyse_aperture(case, obs):
       else:
         if res.get('t') != 'applied':
           flag('notification-not-applied', 'notification still pending after the initial list was installed', i, ('C05',))
-        apply_notif(k, lb[1])
+        apply_notif(k, lb[1], expected_close)
     elif k == 'init':
       init = True
       for (k2, e2) in [('join', e) for e in lb[1]] + blocked:
-        apply_notif(k2, e2)
+        apply_notif(k2, e2, expected_close)
       blocked = []
     created = set()
     for e in ev:
       if e[0] == 'create':
-        nodes[e[1]] = dict(nid=e[1], ep=e[2], out=0, st=st0)
+        nodes[e[1]] = dict(nid=e[1], ep=e[2], out=0, st=st0, closed=0, close_due=False, marked=False)
+        latest[e[2]] = e[1]
         created.add(e[1])
         if init and e[2] not in sset:
           flag('node-for-nonmember', 'channel %d created for %s which is not in the server set %s' % (e[1], e[2], sorted(sset)), i, ('C05',))
       elif e[0] == 'close' and e[1] in nodes:
         nodes[e[1]]['st'] = 4
+      elif e[0] in ('up', 'down') and e[1] in latest:
+        nodes[latest[e[1]]]['marked'] = (e[0] == 'down')
     if k == 'setchan' and lb[1] in nodes:
       nodes[lb[1]]['st'] = lb[2]
     elif k == 'dispatch':
@@ -1009,8 +1019,36 @@ def analyse_aperture(case, obs):
       if r is not None and not r['done']:
         r['done'] = True
         if r['nid'] in nodes:
-          nodes[r['nid']]['out'] -= 1
+          x = nodes[r['nid']]
+          x['out'] -= 1
+          if x['nid'] in departed and x['out'] == 0 and not x['close_due'] and not x['closed']:
+            expected_close.append(x['nid'])
+            x['close_due'] = True
     d = st.get('diag') or {}
+    # ---- C04: Close() calls on the member channels -----------------------------------------------------
+    post_ids = set(n for n, _l in d['heap']) if 'heap' in d else None
+    for e in ev:
+      if e[0] != 'close' or e[1] not in nodes:
+        continue
+      x = nodes[e[1]]
+      if x['nid'] in expected_close:
+        expected_close.remove(x['nid'])
+      elif x['closed']:
+        flag('close-twice', 'channel %d of %s closed again' % (x['nid'], x['ep']), i, ('C04',))
+      elif x['nid'] in departed:
+        if x['out'] > 0 and not x['marked']:
+          flag('close-early', 'channel %d of departed member %s closed with %d requests outstanding' % (x['nid'], x['ep'], x['out']), i, ('C04',))
+      else:
+        # a current member's channel may be closed only by a contraction: it left the aperture idle or marked down
+        if post_ids is not None and x['nid'] in post_ids:
+          flag('close-of-member', 'channel %d of %s was closed while it is in the aperture' % (x['nid'], x['ep']), i, ('C04',))
+        elif x['out'] > 0 and not x['marked']:
+          flag('close-early', 'channel %d of %s closed with %d requests outstanding' % (x['nid'], x['ep'], x['out']), i, ('C04',))
+        x['close_due'] = True
+      x['closed'] += 1
+    for nid in expected_close:
+      flag('close-missing', 'channel %d of departed member %s should have been closed now (outstanding %d, marked down %s)'
+           % (nid, nodes[nid]['ep'], nodes[nid]['out'], nodes[nid]['marked']), i, ('C04',))
     prev_heap = d.get('heap') if 'heap' in d else None
     if prev_heap is not None:
       for p_ in range(2, len(prev_heap) + 1):
@@ -1160,7 +1198,7 @@ def _one_op(r, wts, universe):
 SHARES = {
     # share of cases: on a real aperture (monitor only) / through the real ClientTimeoutSink / provider with endpoint_name
     'C03': dict(ap_real=0.25, tsink=0.4, epname=0.1),
-    'C04': dict(ap_real=0.0, tsink=0.65, epname=0.15),
+    'C04': dict(ap_real=0.2, tsink=0.65, epname=0.15),
     'C05': dict(ap_real=0.25, tsink=0.3, epname=0.4),
 }
 AP_PROFILE = dict(dispatch=8, c_any=2.5, c_min=0.5, c_max=1, rec=0.1, chan=1.5, chan_min=2.0, fault=0.3, join=0.4, leave=0.5,
@@ -1175,7 +1213,7 @@ def gen_aperture_real(r, pid='C03'):
   than once.  The history ends with every member but one leaving and a dispatch (isolate)."""
   nsrv = r.choice([4, 5, 6, 7, 8])
   min_size = r.choice([1, 2, 3, 3, 3])
-  adapt = r.random() < (0.7 if pid == 'C05' else 0.3)
+  adapt = r.random() < (0.7 if pid == 'C05' else 0.5 if pid == 'C04' else 0.3)
   universe = list(range(nsrv + r.choice([0, 1])))
   ops = [['init', r.sample(universe, nsrv), r.randrange(0, 1000)]]
   if adapt:
